@@ -152,7 +152,7 @@ class Contract:
     def __init__(self, file, qual, *, params=None, result=None, requires=None, ensures=None,
                  raises=None, raises_iff=True, may_raise=(), modifies=None, exc_safe=False,
                  inline=False, loops=None, props=(), ghost=None, self_cls=None, trusted=False,
-                 note="", dispatch=None, spec_defs=None, lemmas=None, exc_safe_if=None, closure=None, slices=None):
+                 note="", dispatch=None, spec_defs=None, lemmas=None, exc_safe_if=None, closure=None, slices=None, dead_paths=()):
         self.file, self.qual = file, qual
         self.params = params or {}
         self.result = result
@@ -173,6 +173,7 @@ class Contract:
         self.dispatch = dispatch
         self.spec_defs = spec_defs or (lambda c: [])
         self.lemmas = lemmas or (lambda c: [])   # [(lemma name, instance clause)] assumed when verifying the body
+        self.dead_paths = tuple(dead_paths)   # path tags known to be infeasible (e.g. a `# pragma: no cover` fall-through): the vacuity guard does not flag them
         self.slices = slices or {}           # proof hint only: clause keyword -> substrings of the hypothesis names its 'sliced' attempt keeps (dropping hypotheses is always sound)
 
     @property
